@@ -86,6 +86,9 @@ type vwOpts struct {
 	// channel identity per instance (MessageDB-backed worlds); nil = one private
 	// channelstore.MemoryFactory per node and the fixed channel "1:w".
 	backend func() *vwBackendLease
+	// prefix is applied (default environment answers) on top of the initial install; the
+	// state it reaches is the initial state of the exploration.
+	prefix []string
 	// noPrune (experiments only, VERIF_DEBUG_NOPRUNE=1): keep exploring past a KF-C01-1
 	// transition to see which other oracle its consequences reach.
 	noPrune bool
@@ -104,6 +107,7 @@ type vwStats struct {
 	crashAtReplace, crossNodeDeposedAck, retryRefusedHigherAuthority  atomic.Int64
 	committedPairsCompared, chainEntriesVerified                      atomic.Int64
 	commitBackpressured, commitUnavailable, conflictGarbageRow        atomic.Int64
+	saAtFrontier, saAtFrontierDivergentTail                           atomic.Int64
 }
 
 // vwBackendLease is an exclusive lease of three durable stores for one instance.
@@ -183,9 +187,13 @@ type vw struct {
 	key   ch.ChannelKey
 	id    ch.ChannelID
 	lease *vwBackendLease
-	nodes []*vwNode
-	env   *mc.Env
-	cp    vwControlPlane
+	// pointFn, when set (controlled-scheduler runs), is called at the places where the
+	// production dispatchers hand work to another goroutine / the network, so that the
+	// scheduler can switch threads there.
+	pointFn func(string)
+	nodes   []*vwNode
+	env     *mc.Env
+	cp      vwControlPlane
 
 	trailing []vwTrailing
 	acks     []vwAck
@@ -239,6 +247,18 @@ func newVW(o vwOpts, st *vwStats) *vw {
 		panic(fmt.Sprintf("verif: initial install failed: %v", err))
 	}
 	w.snapOK = false
+	for _, e := range o.prefix {
+		ok := false
+		for _, en := range w.Events() {
+			ok = ok || en == e
+		}
+		if !ok {
+			panic("verif: prefix event not enabled: " + e)
+		}
+		if _, err := w.Apply(e, nil); err != nil {
+			panic(fmt.Sprintf("verif: prefix event %s violates: %v", e, err))
+		}
+	}
 	return w
 }
 
@@ -362,12 +382,19 @@ func (d *vwDisp) release() {
 	}
 }
 
+func (d *vwDisp) point(desc string) {
+	if d.w.pointFn != nil {
+		d.w.pointFn(desc)
+	}
+}
+
 func (d *vwDisp) reachable(to ch.NodeID) bool {
 	return !d.n.down && !d.w.node(to).down && !d.n.crashing
 }
 
 func (d *vwDisp) submitRecoveryProbe(_ context.Context, query recoveryProbeQuery, complete func(ProbeResult, error)) error {
 	d.w.obs.probes++
+	d.point("probe")
 	request := ProbeRequest{ChannelKey: query.ChannelKey, ChannelID: query.ChannelID, Leader: query.Leader, Follower: query.Voter,
 		Indexes: append([]uint64(nil), query.Indexes...)}
 	if query.Voter == d.n.id {
@@ -425,6 +452,7 @@ func (d *vwDisp) submitRecoveryFetch(_ context.Context, query recoveryFetchQuery
 		ChannelKey: query.ChannelKey, ChannelID: query.ChannelID, Leader: query.Leader, Follower: query.Donor,
 		Expected: query.Expected, From: query.From, Through: query.Through, Previous: query.Previous, MaxBytes: query.MaxBytes,
 	}
+	d.point("fetch")
 	if query.Donor == d.n.id {
 		if d.n.crashing {
 			complete(FetchResult{}, errVwCrashed)
@@ -479,6 +507,7 @@ func (d *vwDisp) submitLocal(_ context.Context, proposal durableProposal, comple
 	if d.n.crashing {
 		return errVwCrashed
 	}
+	d.point("local-sync")
 	d.w.obs.storeWrites++
 	results := d.n.store.Sync(context.Background(), []Mutation{{
 		ChannelKey: proposal.channelKey, ChannelID: proposal.channelID,
@@ -489,6 +518,7 @@ func (d *vwDisp) submitLocal(_ context.Context, proposal durableProposal, comple
 	if len(results) == 1 && validLocalDurabilityResult(proposal, results[0]) {
 		completion = durabilityCompletion{outcome: results[0].Outcome, err: results[0].Err}
 	}
+	d.point("local-synced")
 	if d.w.o.evLocalLost && d.w.choose("local-completion", 2) == 1 {
 		completion = durabilityCompletion{outcome: ch.AppendOutcomeUnknown, err: errVwLocalLost}
 	}
@@ -508,6 +538,7 @@ func (d *vwDisp) exchangeReplicate(to ch.NodeID, proposal durableProposal, backg
 		Manifest: proposal.manifest, Records: proposal.records, Committed: proposal.committed,
 		ServerAllocatedMessageIDs: proposal.serverAllocatedMessageIDs,
 	}
+	d.point("replicate-send")
 	if !d.reachable(to) {
 		return ReplicateResult{Status: ReplicateOutcomeUnknown}, errors.Join(errPeerOutcomeUnknown, errVwUnreachable)
 	}
@@ -523,9 +554,21 @@ func (d *vwDisp) exchangeReplicate(to ch.NodeID, proposal durableProposal, backg
 		priority = ExchangePriorityBackground
 	}
 	d.w.obs.storeWrites++
+	if proposal.serverAllocatedMessageIDs && d.w.lease != nil {
+		// vacuity counters for the sequenced fast path of the MessageDB exact append
+		// (ServerAllocatedMessageIDs and base == follower LEO), in particular with a
+		// follower tail that is NOT the proposal's predecessor.
+		if l := d.w.readStore(d.w.node(to)); l.err == nil && l.leo == proposal.manifest.BaseOffset {
+			d.w.st.saAtFrontier.Add(1)
+			if tail, ok := l.at(l.leo); ok && (tail.Digest != proposal.manifest.PreviousDigest || tail.LeaderTerm != proposal.manifest.PreviousTerm) {
+				d.w.st.saAtFrontierDivergentTail.Add(1)
+			}
+		}
+	}
 	resp, err := d.w.node(to).server.Handle(context.Background(), d.n.id, ExchangeBatch{
 		Version: ExchangeVersion, Priority: priority,
 		Items: []ExchangeItem{{RequestID: 1, Kind: ExchangeReplicate, Replicate: &request}}})
+	d.point("replicate-reply")
 	if c == 1 {
 		return ReplicateResult{Status: ReplicateOutcomeUnknown}, errors.Join(errPeerOutcomeUnknown, errVwReplyLost)
 	}
@@ -757,8 +800,14 @@ func cmdName(id ch.CommandID) string {
 	return "bar"
 }
 
+// cmdServerAllocated: c1 and c2 are proposed with ServerAllocatedMessageIDs=true (the
+// sequenced fast path of the MessageDB exact-append mode), c3 without. Its precondition
+// (message ids unique per content) is honoured: the conflicting variant carries other ids.
+func cmdServerAllocated(k int) bool { return k != 3 }
+
 // cmdRecords is the fixed content of command k in variant 'a' (canonical) or 'x'
-// (same id, same record count and sizes, different payload). c2 carries two records.
+// (same command id, same record count and sizes, different payload and message ids).
+// c2 carries two records.
 func cmdRecords(k int, variant byte, epoch uint64) []ch.Record {
 	count, pad := 1, 60
 	if k == 2 {
@@ -769,7 +818,7 @@ func cmdRecords(k int, variant byte, epoch uint64) []ch.Record {
 		payload := make([]byte, pad)
 		payload[0], payload[1], payload[2] = variant, byte(k), byte(i)
 		out[i] = ch.Record{
-			ID: uint64(1000 + 10*k + i), Epoch: epoch, FromUID: "u", ClientMsgNo: fmt.Sprintf("k%d-%d", k, i),
+			ID: uint64(1000+10*k+i) + uint64(variant&1)*5, Epoch: epoch, FromUID: "u", ClientMsgNo: fmt.Sprintf("k%d-%d", k, i),
 			ServerTimestampMS: int64(1_700_000_000_000 + k), Payload: payload, SizeBytes: len(payload),
 		}
 	}
@@ -1282,7 +1331,8 @@ func (w *vw) applyCommit(n *vwNode, k int, kind string, before []vwLog) (string,
 		_, inRetained = st.retained[cmdID(k)]
 	}
 	wasWritable := n.writable && !n.fenced
-	receipt, err := n.log.Commit(context.Background(), Proposal{Key: w.key, Expected: expected, CommandID: cmdID(k), Records: records})
+	receipt, err := n.log.Commit(context.Background(), Proposal{Key: w.key, Expected: expected, CommandID: cmdID(k), Records: records,
+		ServerAllocatedMessageIDs: cmdServerAllocated(k)})
 	after := w.snapshot()
 	obs := kind + ":" + errName(err)
 	if err == nil {
